@@ -24,12 +24,15 @@ import (
 	"net"
 	"net/http"
 	"net/http/httptest"
+	"net/http/httptrace"
+	"net/textproto"
 	"os"
 	"os/exec"
 	"path/filepath"
 	"regexp"
 	"strings"
 	"sync"
+	"sync/atomic"
 	"time"
 	"unsafe"
 
@@ -311,6 +314,15 @@ type c19TimingIn struct {
 	KeepAliveMs int `json:"keepalive_ms,omitempty"`
 	IdleMs      int `json:"idle_ms,omitempty"`
 	FlushMs     int `json:"flush_ms,omitempty"` // proxy.flushinterval (the SSE handler's)
+	// the history of the proxy and of its connections to this upstream: Warm requests (plain GETs, answered at
+	// once) go through the same proxy first, so that the measured request finds idle keep-alive connections
+	Warm int `json:"warm,omitempty"`
+	// an informational response (103 Early Hints, 102 Processing) the upstream sends at once, before the delay
+	Interim int `json:"interim,omitempty"`
+	// c19.binary only: a second listener in proxy.addr with this write timeout / read timeout (0 = none); the
+	// measured request arrives through the first listener, which has neither
+	ListenWtMs int `json:"listen_wt_ms,omitempty"`
+	ListenRtMs int `json:"listen_rt_ms,omitempty"`
 }
 
 type c19TimingOut struct {
@@ -325,6 +337,8 @@ type c19TimingOut struct {
 	BodyOK    bool   `json:"body_ok"`  // the body the client read is byte for byte what the upstream sent
 	BodyLen   int    `json:"body_len"` // bytes read
 	BodyWant  int    `json:"body_want"`
+	Interims  []int  `json:"interims"` // the informational responses the client received before the final one
+	WarmOK    int    `json:"warm_ok"`  // how many of the warm-up requests were answered 200 "warm"
 	Err       string `json:"err,omitempty"`
 }
 
@@ -392,8 +406,18 @@ func c19Upstream(in c19TimingIn) (up *httptest.Server, tgt c19Target, saw func()
 	h := http.HandlerFunc(func(w http.ResponseWriter, r *http.Request) {
 		mu.Lock()
 		n++
+		k := n
 		mu.Unlock()
 		io.Copy(io.Discard, r.Body)
+		if k <= in.Warm { // the history: answered at once, the connection goes back to the proxy's idle pool
+			w.Header().Set("Content-Type", "application/octet-stream")
+			io.WriteString(w, "warm")
+			return
+		}
+		if in.Interim != 0 {
+			w.Header().Set("Link", "</style.css>; rel=preload; as=style")
+			w.WriteHeader(in.Interim)
+		}
 		if !wait(r, time.Duration(in.DMs)*time.Millisecond) {
 			return
 		}
@@ -441,10 +465,29 @@ func c19Upstream(in c19TimingIn) (up *httptest.Server, tgt c19Target, saw func()
 	return
 }
 
-// c19Do sends the one request of a case and fills in status, waiting times and what became of the body.
+// c19Do sends the warm-up requests of a case and then the one measured request; it fills in status, waiting
+// times, the informational responses received and what became of the body.
 func c19Do(in c19TimingIn, url string, out *c19TimingOut) {
 	// the client's transport asks for gzip and decodes it by itself (DisableCompression is off)
 	cl := &http.Client{Transport: &http.Transport{DisableKeepAlives: true}, Timeout: 15 * time.Second}
+	out.Interims = []int{}
+	for i := 0; i < in.Warm; i++ {
+		resp, err := cl.Get(url)
+		if err != nil {
+			out.Err = "env: warm-up request: " + err.Error()
+			return
+		}
+		b, _ := io.ReadAll(resp.Body)
+		resp.Body.Close()
+		if resp.StatusCode == 200 && string(b) == "warm" {
+			out.WarmOK++
+		}
+	}
+	if in.Warm > 0 {
+		// the proxy's transport puts the connection back into its idle pool when the body has been copied,
+		// which may be a moment after the client has seen the end of the response
+		time.Sleep(5 * time.Millisecond)
+	}
 	method := in.Method
 	if method == "" {
 		method = "GET"
@@ -461,6 +504,15 @@ func c19Do(in c19TimingIn, url string, out *c19TimingOut) {
 	if in.Accept != "" {
 		req.Header.Set("Accept", in.Accept)
 	}
+	var imu sync.Mutex
+	req = req.WithContext(httptrace.WithClientTrace(req.Context(), &httptrace.ClientTrace{
+		Got1xxResponse: func(code int, _ textproto.MIMEHeader) error {
+			imu.Lock()
+			out.Interims = append(out.Interims, code)
+			imu.Unlock()
+			return nil
+		},
+	}))
 	want := c19Body(in)
 	out.BodyWant = len(want)
 	out.SlackUs = c19Slack.Microseconds()
@@ -581,7 +633,23 @@ func c19Binary() (string, error) {
 	return c19BinPath, c19BinErr
 }
 
+// c19FreePort picks a port for the fabio process. The kernel's own choice (":0") comes from the ephemeral range,
+// which every client connection and every httptest server of the ~20 checks running on this machine draws from
+// as well; a port from below that range, tried for real before it is handed out, is far less likely to be taken
+// in the moment between closing the probe listener and fabio's own listen.
+var c19PortSeq uint32
+
 func c19FreePort() (int, error) {
+	for try := 0; try < 64; try++ {
+		k := atomic.AddUint32(&c19PortSeq, 1)
+		port := 12000 + int((uint32(os.Getpid())*7919+k*104729+uint32(time.Now().UnixNano()>>10))%20000)
+		l, err := net.Listen("tcp", fmt.Sprintf("127.0.0.1:%d", port))
+		if err != nil {
+			continue
+		}
+		l.Close()
+		return port, nil
+	}
 	l, err := net.Listen("tcp", "127.0.0.1:0")
 	if err != nil {
 		return 0, err
@@ -617,8 +685,24 @@ func c19BinaryOnce(in c19BinaryIn) (out c19TimingOut) {
 	}
 	c := in.cfg()
 	dur := func(ns int64) string { return time.Duration(ns).String() }
+	listen := fmt.Sprintf("127.0.0.1:%d", pp)
+	if in.ListenWtMs > 0 || in.ListenRtMs > 0 {
+		// a second HTTP listener with its own read/write timeout; the measured request does not use it
+		p2, err := c19FreePort()
+		if err != nil {
+			out.Err = "env: no free port"
+			return
+		}
+		listen += fmt.Sprintf(",127.0.0.1:%d", p2)
+		if in.ListenRtMs > 0 {
+			listen += fmt.Sprintf(";rt=%dms", in.ListenRtMs)
+		}
+		if in.ListenWtMs > 0 {
+			listen += fmt.Sprintf(";wt=%dms", in.ListenWtMs)
+		}
+	}
 	args := []string{"-insecure", "-registry.backend", "static", "-registry.static.routes", routes,
-		"-proxy.addr", fmt.Sprintf("127.0.0.1:%d", pp), "-ui.addr", fmt.Sprintf("127.0.0.1:%d", ui), "-log.level", "FATAL",
+		"-proxy.addr", listen, "-ui.addr", fmt.Sprintf("127.0.0.1:%d", ui), "-log.level", "FATAL",
 		"-proxy.dialtimeout", dur(c.Dial), "-proxy.keepalivetimeout", dur(c.KeepAlive), "-proxy.idleconntimeout", dur(c.Idle),
 		"-proxy.maxconn", fmt.Sprint(c.MaxConn), "-proxy.flushinterval", in.flush().String()}
 	if in.Gzip {
@@ -638,21 +722,39 @@ func c19BinaryOnce(in c19BinaryIn) (out c19TimingOut) {
 		out.Err = "env: start: " + err.Error()
 		return
 	}
-	defer func() { cmd.Process.Kill(); cmd.Wait() }()
+	exited := make(chan struct{})
+	go func() { cmd.Wait(); close(exited) }()
+	defer func() { cmd.Process.Kill(); <-exited }()
+	gone := func(grace time.Duration) bool {
+		select {
+		case <-exited:
+			return true
+		case <-time.After(grace):
+			return false
+		}
+	}
 	addr := fmt.Sprintf("127.0.0.1:%d", pp)
 	ready := false
 	for i := 0; i < 400 && !ready; i++ {
 		if c, err := net.DialTimeout("tcp", addr, 100*time.Millisecond); err == nil {
 			c.Close()
 			ready = true
-		} else {
-			time.Sleep(10 * time.Millisecond)
+		} else if gone(10 * time.Millisecond) {
+			break
 		}
 	}
-	if !ready {
-		out.Err = "env: fabio did not start listening"
+	// The ports were free when they were chosen, but the machine is shared: if another process took one of them
+	// in between, fabio fails to listen and exits, and whatever answers on that port is not fabio.
+	if !ready || gone(20*time.Millisecond) {
+		out.Err = "env: fabio did not start listening (or a port was taken by another process)"
 		return
 	}
+	defer func() {
+		// an answer that is not the expected one and a fabio that is no longer there: the answer was not fabio's
+		if gone(0) || (!c19TimingAsExpected(in.c19TimingIn, out) && out.Upstream == 0 && gone(300*time.Millisecond)) {
+			out.Err = "env: the fabio process exited during the measurement"
+		}
+	}()
 	out.Used = map[string]string{"default": "default", "insecure": "insecure", "route": "route"}[in.Kind]
 	out.RHT = int64(in.TMs) * int64(time.Millisecond) // not observable from outside the process: echoed
 	c19Do(in.c19TimingIn, "http://"+addr+"/", &out)
@@ -696,6 +798,14 @@ func c19CheckTiming(in c19TimingIn) error {
 			return fmt.Errorf("limit outside the range of the stream")
 		}
 	}
+	if in.Warm < 0 || in.Warm > 3 || (in.Interim != 0 && in.Interim != 102 && in.Interim != 103) {
+		return fmt.Errorf("history or interim response outside the stream's universe")
+	}
+	for _, v := range []int{in.ListenWtMs, in.ListenRtMs} {
+		if v < 0 || v > 5000 || (v != 0 && v < 10) {
+			return fmt.Errorf("listener timeout outside the range of the stream")
+		}
+	}
 	// never near the timeout: the instant d = T is a race inside net/http and outside the claim
 	if in.TMs > 0 && in.DMs*3 > in.TMs && in.DMs < in.TMs*3 {
 		return fmt.Errorf("delay too close to the timeout for a wall-clock measurement")
@@ -728,17 +838,23 @@ func c19RunBinary(raw json.RawMessage) (interface{}, error) {
 	return out, nil
 }
 
+// c19InTimeBoundUs is the generous upper bound for an answer whose headers came in time: the property says it
+// is "served normally" (status and complete body), not how fast; the bound only excludes an answer that hangs.
+func c19InTimeBoundUs(in c19TimingIn) int64 {
+	return 2*int64(in.DMs+in.BodyMs)*1000 + 1000000
+}
+
 func c19TimingAsExpected(in c19TimingIn, o c19TimingOut) bool {
-	if o.Err != "" || o.Status != c19Expected(in) {
+	if o.Err != "" || o.Status != c19Expected(in) || o.Upstream != in.Warm+1 || o.WarmOK != in.Warm {
 		return false
 	}
-	bound := int64(in.DMs + in.BodyMs)
+	if (in.Interim != 0) != (len(o.Interims) == 1) {
+		return false
+	}
 	if in.slow() {
-		bound = int64(in.TMs)
-	} else if !o.BodyOK {
-		return false
+		return o.ElapsedUs <= int64(in.TMs)*1000+o.SlackUs
 	}
-	return o.ElapsedUs <= bound*1000+o.SlackUs
+	return o.BodyOK && o.ElapsedUs <= c19InTimeBoundUs(in)
 }
 
 func c19RunTiming(raw json.RawMessage) (interface{}, error) {
@@ -798,6 +914,27 @@ func c19GenTiming(r *hx.Rand, i int, ts []int) c19TimingIn {
 		in.TMs = 0
 		in.DMs = []int{0, 20, 150}[r.Intn(3)]
 	}
+	// the history: earlier requests through the same proxy were answered at once, idle keep-alive connections to
+	// the upstream exist when the measured request arrives
+	if r.Chance(1, 3) {
+		in.Warm = 1 + r.Intn(2)
+	}
+	// the upstream sends an informational response first
+	if r.Chance(1, 4) {
+		in.Interim = []int{103, 103, 102}[r.Intn(3)]
+	}
+	return in
+}
+
+// c19GenTimingT: for the "headers too late" cases T is also drawn from values larger than the slack of the
+// measurement, so that a 504 which comes after a multiple of T (2T, T + another limit) is told from one at T.
+func c19GenTimingT(r *hx.Rand, i int, ts []int) c19TimingIn {
+	in := c19GenTiming(r, i, ts)
+	if in.slow() && r.Chance(1, 2) {
+		t := []int{200, 400}[r.Intn(2)]
+		in.TMs = t
+		in.DMs = 3*t + r.Intn(t+1)
+	}
 	return in
 }
 
@@ -835,7 +972,7 @@ func init() {
 			c19TimingIn{TMs: 200, DMs: 600, Kind: "insecure", Status: 200},
 			c19TimingIn{TMs: 200, DMs: 40, Kind: "insecure", Status: 404},
 		},
-		Gen: func(r *hx.Rand, i int) interface{} { return c19GenTiming(r, i, []int{50, 100, 200}) },
+		Gen: func(r *hx.Rand, i int) interface{} { return c19GenTimingT(r, i, []int{50, 100, 200}) },
 		Run: c19RunTiming,
 	})
 
@@ -846,7 +983,22 @@ func init() {
 			c19BinaryIn{c19TimingIn{TMs: 100, DMs: 10, Kind: "default", Status: 200}, "cmdline"},
 		},
 		Gen: func(r *hx.Rand, i int) interface{} {
-			return c19BinaryIn{c19GenTiming(r, i, []int{100, 200}), r.Pick([]string{"cmdline", "cmdline", "env"})}
+			in := c19GenTimingT(r, i, []int{100, 200})
+			// another listener with a read/write timeout well below the response-header timeout; an answer
+			// that is in time for the configured limit comes later than that listener's timeouts
+			if in.TMs >= 100 && r.Chance(1, 3) {
+				v := 10 + r.Intn(in.TMs/8)
+				if r.Chance(2, 3) {
+					in.ListenWtMs = v
+				}
+				if r.Chance(1, 3) {
+					in.ListenRtMs = v
+				}
+				if !in.slow() {
+					in.DMs = in.TMs/4 + r.Intn(in.TMs/3-in.TMs/4+1)
+				}
+			}
+			return c19BinaryIn{in, r.Pick([]string{"cmdline", "cmdline", "env"})}
 		},
 		Run: c19RunBinary,
 	})
